@@ -6,7 +6,9 @@ package main
 import (
 	"flag"
 	"fmt"
+	"io/ioutil"
 	"os"
+	"strings"
 
 	"olverif/harness/apph"
 	"olverif/harness/kv"
@@ -408,6 +410,46 @@ func main() {
 		stdout := apph.SilenceAppLogs()
 		apph.OlvmSmoke(stdout)
 		apph.Cleanup()
+	case "sigm":
+		fs := flag.NewFlagSet("sigm", flag.ExitOnError)
+		driver := fs.String("driver", "", "path to olpdriver")
+		seed := fs.Uint64("seed", 1, "seed")
+		rawN := fs.Int("raw", 2000, "RawTx serialisation cases")
+		vbN := fs.Int("vb", 3000, "ValidateBasic cases")
+		olvmN := fs.Int("olvm", 0, "OLVM transactions offered to CheckTx (fork-family chain)")
+		out := fs.String("out", "", "result json")
+		replay := fs.String("replay", "", "replay the op lines of one file")
+		corpus := fs.String("corpus", "", "corpus directory (*.ops run first)")
+		fs.Parse(os.Args[2:])
+		stdout := apph.SilenceAppLogs()
+		if *replay != "" {
+			b, err := ioutil.ReadFile(*replay)
+			if err != nil {
+				fmt.Fprintln(stdout, err)
+				os.Exit(2)
+			}
+			bad, err := apph.ReplaySigm(*driver, strings.Split(string(b), "\n"), func(s string) { fmt.Fprintln(stdout, s) })
+			apph.Cleanup()
+			if err != nil {
+				fmt.Fprintln(stdout, "olh sigm -replay:", err)
+				os.Exit(2)
+			}
+			fmt.Fprintf(stdout, "replay: %d disagreement(s) / monitor hit(s)\n", bad)
+			if bad > 0 {
+				os.Exit(1)
+			}
+			return
+		}
+		res, err := apph.RunSigm(apph.SigmOptions{Corpus: *corpus, Driver: *driver, Seed: *seed, RawCases: *rawN, VBCases: *vbN, OlvmCases: *olvmN})
+		apph.Cleanup()
+		if err != nil {
+			fmt.Fprintln(stdout, "olh sigm:", err)
+			os.Exit(2)
+		}
+		if *out != "" {
+			kv.WriteResult(*out, res)
+		}
+		fmt.Fprintf(stdout, "sigm: cases=%d nontrivial=%d disagreements=%d monitor=%v\n", res.Evaluations, res.DistinctNontrivial, res.DisagreementCount, res.MonitorHitCount)
 	default:
 		fmt.Fprintln(os.Stderr, "unknown engine", os.Args[1])
 		os.Exit(2)
